@@ -21,7 +21,7 @@
 //! DUMP = {"key": method part of config.key, "profiles":[[name, len(profile_key)]…], "items":[[profile, kind, len cat, len name, len value]…],
 //!         "tags":[[profile, len name, len value, plaintext, value-is-a-known-plaintext]…], "clear_secret": n}  (all sorted)
 use crate::canon::{err_name, filter_from_json, kind_of, tags_from_json, Tag};
-use crate::rawsql::{RawDb, Val};
+use crate::rawsql::RawDb;
 use crate::rng::Rng;
 use crate::store_case::scratch_dir;
 use aries_askar::kms::{KeyAlg, LocalKey};
@@ -540,7 +540,7 @@ impl Run {
                         continue;
                     }
                     let sig = if s.class == "profile-subkey" && s.store == si && was_none {
-                        format!("residue:profile-subkey:{}:{}:after-rekey-from-none", fkind, sname)
+                        format!("residue:profile-subkey:{}:{}:after-rekey-from-none:{}", fkind, sname, if when.starts_with("closed") { "closed" } else { "open" })
                     } else {
                         format!("leak:{}:{}:{}:{}", s.class, fkind, sname, when)
                     };
@@ -638,8 +638,9 @@ impl Run {
         }
         // canonical dump
         let key_part = d.key.split('?').next().unwrap_or("").to_string();
-        let mut profiles: Vec<Value> = d.profiles.iter().map(|(_, n, k)| json!([n, k.len()])).collect();
-        profiles.sort_by_key(|v| v.to_string());
+        let mut profiles: Vec<(String, usize)> = d.profiles.iter().map(|(_, n, k)| (n.clone(), k.len())).collect();
+        profiles.sort();
+        let profiles: Vec<Value> = profiles.iter().map(|(n, l)| json!([n, l])).collect();
         let mut items: Vec<(String, i64, usize, usize, usize)> = d.items.iter().map(|it| (pname.get(&it.1).cloned().unwrap_or_default(), it.2, it.3.len(), it.4.len(), it.5.len())).collect();
         items.sort();
         let mut tags: Vec<(String, usize, usize, i64, bool)> = d.tags.iter().map(|t| (item_profile.get(&t.1).cloned().unwrap_or_default(), t.2.len(), t.3.len(), t.4, self.tag_values.contains(&t.3))).collect();
